@@ -119,7 +119,7 @@ inline double inexactWeight(int a) {
     case 2: return 7000.3;
     case 3: return 0.7;
     case 4: return 0.1 + 0.2; // one ulp above inexactWeight(1)
-    case 5: return 1e20;      // swamps every other weight in a running sum
+    case 5: return 1e308;     // swamps every other weight in a running sum; two of them exceed DBL_MAX (not long double)
     default: return 1.1 * a;
     }
 }
@@ -171,7 +171,7 @@ template <class G> class Obj : public IObj {
   public:
     G g;
     int variant = 0; // weighted classes: 1 = inexact weights
-    bool sawHuge = false; // a weight of 1e20 went through this object's running total
+    bool sawHuge = false; // a weight of 1e308 went through this object's running total
     // a view obtained from edges() when the object was created (before any later resize /
     // insertion): edges() is a live view of the graph, traversing it later enumerates the
     // graph as it is then (C08)
@@ -651,10 +651,14 @@ template <class G> class Obj : public IObj {
                 for (auto e : g.edges())
                     tol = std::max(tol, 1e-9L * std::fabs((long double)g.getEdgeWeight(e.first, e.second)));
                 if (sawHuge)
-                    tol = std::max(tol, 1e12L);
-                if (std::fabs((double)(t - sum)) > (double)tol) {
+                    tol = std::max(tol, 1e295L);
+                // (UndirectedWeightedGraph::getTotalWeight returns a double: a sum beyond DBL_MAX reads
+                // as infinity there, which is that sum rounded to the return type)
+                const bool beyondDouble = !std::isfinite((double)sum);
+                if (beyondDouble ? ((double)t != (double)sum && std::fabs((double)(t - sum)) > (double)tol)
+                                 : (!(std::fabs((double)(t - sum)) <= (double)tol))) {
                     bad += "[total] total weight differs from the sum of the edge weights beyond rounding error; ";
-                    o["tot"] = (double)t;
+                    o["tot"] = std::isfinite((double)t) ? json((double)t) : json(std::signbit((double)t) ? -2147483647 : 2147483647);
                 } else
                     o["tot"] = abstractSum;
             } else {
